@@ -1,7 +1,1021 @@
-//! C02 — not implemented yet.
+//! C02 — BGZF virtual positions name bytes: tell / seek / gzi are mutually consistent.
+//!
+//! Sub-checks
+//! * `reader_history`: G-layout file × history of read / read_exact / fill_buf / consume / seek /
+//!   seek-by-uncompressed-offset against the flat-array + block-table model, on `Reader`,
+//!   `IndexedReader` and `MultithreadedReader` (through `bgzf::io::Seek`).
+//! * `writer_tell`: `Writer` histories with `virtual_position()` sampled immediately before every
+//!   write; every sample must resolve (independent walker) to the payload offset of the first byte
+//!   of that write, and a fresh reader sought there must deliver the payload suffix.
+//! * `gzi_roundtrip`: arbitrary gzi indexes through `gzi::io::Writer` / `gzi::io::Reader`, bytes
+//!   compared with an independent serialisation.
 
 use crate::engine::*;
+use crate::r#gen::layout::{Layout, Model, layout};
+use crate::r#gen::payload::{Payload, payload};
+use crate::{ensure, ensure_eq};
+use noodles_bgzf::{self as bgzf, VirtualPosition, gzi};
+use proptest::prelude::*;
+use serde::{Deserialize, Serialize};
+use std::io::{self, BufRead, Cursor, Read, Seek, SeekFrom, Write};
+
+// ------------------------------------------------------------------------------------------------
+// case description
+// ------------------------------------------------------------------------------------------------
+
+#[derive(Clone, Copy, Debug, Serialize, Deserialize, PartialEq)]
+pub enum Kind {
+    /// `bgzf::io::Reader`
+    Plain,
+    /// `bgzf::io::IndexedReader` (`std::io::Seek`, uncompressed offsets only)
+    Indexed,
+    /// `bgzf::io::MultithreadedReader` through the `bgzf::io::Seek` trait
+    Multi,
+}
+
+#[derive(Clone, Debug, Serialize, Deserialize)]
+pub enum Len {
+    Abs(u32),
+    /// exactly the rest of the block holding the next byte
+    Rest,
+    /// the rest of the block plus `k` (crosses into the next block)
+    RestPlus(u16),
+    /// ≥ 65536: the direct-into-caller-buffer path of `Reader::read`
+    Big(u32),
+}
+
+#[derive(Clone, Debug, Serialize, Deserialize)]
+pub enum Target {
+    /// `(cpos of a non-empty block, u)` with `u < len`
+    InBlock { blk: u16, u: u16 },
+    /// `(cpos of a non-empty block, len - 1)`
+    LastByte { blk: u16 },
+    /// `(cpos of any member, 0)`, including empty members and the EOF marker
+    BlockStart { blk: u16 },
+    /// `(file_len, 0)`
+    FileEnd,
+    /// whatever the reader itself reports right now
+    Current,
+}
+
+#[derive(Clone, Debug, Serialize, Deserialize)]
+pub enum UTarget {
+    Off(u16),
+    BlockStart(u16),
+    BlockLast(u16),
+    Total,
+}
+
+#[derive(Clone, Debug, Serialize, Deserialize)]
+pub enum Op {
+    Read(Len),
+    ReadExact(Len),
+    FillBuf,
+    /// consume a share of what the last `fill_buf` returned
+    Consume(u16),
+    Seek(Target),
+    SeekU(UTarget),
+    /// "seeking any BGZF reader there": a fresh reader (multithreaded or not) is sought to the
+    /// position this reader reports and must deliver the stream from the model's next byte on
+    CrossSeek { multi: bool },
+}
+
+#[derive(Clone, Debug, Serialize, Deserialize)]
+pub struct Case {
+    pub layout: Layout,
+    pub kind: Kind,
+    /// gzi without the record of a final empty member (both variants are what `bgzip` writes)
+    pub gzi_drop_terminator: bool,
+    pub ops: Vec<Op>,
+    /// false: the two call patterns of the recorded stale-block defects (a seek to `(file_len, 0)`
+    /// on `Reader` / `MultithreadedReader`; a read with a >= 64 KiB buffer at the end of a file
+    /// whose last member is not empty) are left out of the history, so that most of the search
+    /// runs behind those findings; true (a minority of the cases) keeps them in.
+    #[serde(default = "yes")]
+    pub known_classes: bool,
+}
+
+fn yes() -> bool {
+    true
+}
+
+// ------------------------------------------------------------------------------------------------
+// strategies
+// ------------------------------------------------------------------------------------------------
+
+pub fn len_strategy() -> BoxedStrategy<Len> {
+    prop_oneof![
+        9 => (0u32..=70).prop_map(Len::Abs),
+        2 => (71u32..=5000).prop_map(Len::Abs),
+        3 => Just(Len::Rest),
+        3 => (1u16..=300).prop_map(Len::RestPlus),
+        3 => proptest::sample::select(vec![65536u32, 65537, 70000, 131072, 200000]).prop_map(Len::Big),
+    ]
+    .boxed()
+}
+
+pub fn target_strategy(file_end_weight: u32) -> BoxedStrategy<Target> {
+    prop_oneof![
+        40 => (any::<u16>(), any::<u16>()).prop_map(|(blk, u)| Target::InBlock { blk, u }),
+        10 => any::<u16>().prop_map(|blk| Target::LastByte { blk }),
+        30 => any::<u16>().prop_map(|blk| Target::BlockStart { blk }),
+        12 => Just(Target::Current),
+        file_end_weight => Just(Target::FileEnd),
+    ]
+    .boxed()
+}
+
+pub fn utarget_strategy() -> BoxedStrategy<UTarget> {
+    prop_oneof![
+        5 => any::<u16>().prop_map(UTarget::Off),
+        2 => any::<u16>().prop_map(UTarget::BlockStart),
+        2 => any::<u16>().prop_map(UTarget::BlockLast),
+        1 => Just(UTarget::Total),
+    ]
+    .boxed()
+}
+
+fn op_strategy() -> BoxedStrategy<Op> {
+    prop_oneof![
+        30 => len_strategy().prop_map(Op::Read),
+        14 => len_strategy().prop_map(Op::ReadExact),
+        12 => Just(Op::FillBuf),
+        12 => any::<u16>().prop_map(Op::Consume),
+        // FileEnd is the class of a known defect: keep it occasional so the search goes on behind it
+        20 => target_strategy(1).prop_map(Op::Seek),
+        12 => utarget_strategy().prop_map(Op::SeekU),
+        5 => any::<bool>().prop_map(|multi| Op::CrossSeek { multi }),
+    ]
+    .boxed()
+}
+
+fn strategy(tier: Tier) -> BoxedStrategy<Case> {
+    let max_ops = tier.pick(40usize, 120);
+    let max_blocks = tier.pick(6usize, 10);
+    (
+        layout(max_blocks),
+        prop_oneof![3 => Just(Kind::Plain), 2 => Just(Kind::Indexed), 3 => Just(Kind::Multi)],
+        any::<bool>(),
+        proptest::collection::vec(op_strategy(), 0..=max_ops),
+        prop_oneof![17 => Just(false), 3 => Just(true)],
+    )
+        .prop_map(|(layout, kind, gzi_drop_terminator, ops, known_classes)| Case { layout, kind, gzi_drop_terminator, ops, known_classes })
+        .boxed()
+}
+
+// ------------------------------------------------------------------------------------------------
+// uniform access to the three readers
+// ------------------------------------------------------------------------------------------------
+
+type Src = Cursor<Vec<u8>>;
+
+pub enum Rd {
+    Plain(bgzf::io::Reader<Src>),
+    Indexed(bgzf::io::IndexedReader<Src>),
+    Multi(bgzf::io::MultithreadedReader<Src>),
+}
+
+impl Rd {
+    pub fn new(kind: Kind, file: Vec<u8>, index: &gzi::Index) -> Rd {
+        match kind {
+            Kind::Plain => Rd::Plain(bgzf::io::Reader::new(Cursor::new(file))),
+            Kind::Indexed => Rd::Indexed(bgzf::io::IndexedReader::new(Cursor::new(file), index.clone())),
+            Kind::Multi => Rd::Multi(bgzf::io::MultithreadedReader::new(Cursor::new(file))),
+        }
+    }
+    pub fn read(&mut self, buf: &mut [u8]) -> io::Result<usize> {
+        match self {
+            Rd::Plain(r) => r.read(buf),
+            Rd::Indexed(r) => r.read(buf),
+            Rd::Multi(r) => r.read(buf),
+        }
+    }
+    pub fn read_exact(&mut self, buf: &mut [u8]) -> io::Result<()> {
+        match self {
+            Rd::Plain(r) => r.read_exact(buf),
+            Rd::Indexed(r) => r.read_exact(buf),
+            Rd::Multi(r) => r.read_exact(buf),
+        }
+    }
+    pub fn fill_buf(&mut self) -> io::Result<&[u8]> {
+        match self {
+            Rd::Plain(r) => r.fill_buf(),
+            Rd::Indexed(r) => r.fill_buf(),
+            Rd::Multi(r) => r.fill_buf(),
+        }
+    }
+    pub fn consume(&mut self, n: usize) {
+        match self {
+            Rd::Plain(r) => r.consume(n),
+            Rd::Indexed(r) => r.consume(n),
+            Rd::Multi(r) => r.consume(n),
+        }
+    }
+    pub fn vpos(&self) -> VirtualPosition {
+        match self {
+            Rd::Plain(r) => r.virtual_position(),
+            Rd::Indexed(r) => r.virtual_position(),
+            Rd::Multi(r) => r.virtual_position(),
+        }
+    }
+    /// Seek to a virtual position; the indexed reader has only uncompressed offsets, so it gets
+    /// the offset the position names. Returns the offset named by the reader's return value.
+    pub fn seek_v(&mut self, v: VirtualPosition, names: u64, m: &Model) -> io::Result<Option<u64>> {
+        use bgzf::io::Seek as _;
+        match self {
+            Rd::Plain(r) => r.seek(v).map(|ret| m.resolve(ret.compressed(), ret.uncompressed())),
+            Rd::Indexed(r) => r.seek(SeekFrom::Start(names)).map(Some),
+            Rd::Multi(r) => r.seek_to_virtual_position(v).map(|ret| m.resolve(ret.compressed(), ret.uncompressed())),
+        }
+    }
+    pub fn seek_u(&mut self, off: u64, index: &gzi::Index) -> io::Result<u64> {
+        use bgzf::io::Seek as _;
+        match self {
+            Rd::Plain(r) => r.seek_by_uncompressed_position(index, off),
+            Rd::Indexed(r) => r.seek(SeekFrom::Start(off)),
+            Rd::Multi(r) => r.seek_with_index(index, SeekFrom::Start(off)),
+        }
+    }
+    pub fn finish(self) -> io::Result<()> {
+        match self {
+            Rd::Multi(mut r) => r.finish().map(|_| ()),
+            _ => Ok(()),
+        }
+    }
+    fn suffix(&self) -> &'static str {
+        match self {
+            Rd::Multi(_) => ".mt",
+            _ => "",
+        }
+    }
+}
+
+// ------------------------------------------------------------------------------------------------
+// gzi round trip (shared)
+// ------------------------------------------------------------------------------------------------
+
+fn gzi_bytes(pairs: &[(u64, u64)]) -> Vec<u8> {
+    let mut v = Vec::with_capacity(8 + 16 * pairs.len());
+    v.extend_from_slice(&(pairs.len() as u64).to_le_bytes());
+    for (c, u) in pairs {
+        v.extend_from_slice(&c.to_le_bytes());
+        v.extend_from_slice(&u.to_le_bytes());
+    }
+    v
+}
+
+/// Write an index through noodles, compare the bytes with an independent serialisation, read it
+/// back through noodles and compare.
+fn gzi_roundtrip(pairs: &[(u64, u64)]) -> Result<gzi::Index, Vec<Fail>> {
+    let index = gzi::Index::from(pairs.to_vec());
+    let mut w = gzi::io::Writer::new(Vec::new());
+    w.write_index(&index).map_err(|e| vec![Fail::new("c02.gzi.write-error", format!("write_index: {e}"))])?;
+    let bytes = w.into_inner();
+    ensure_eq!(bytes, gzi_bytes(pairs), "c02.gzi.bytes", "gzi bytes written vs independent little-endian serialisation");
+    let back = gzi::io::Reader::new(&bytes[..]).read_index().map_err(|e| vec![Fail::new("c02.gzi.read-error", format!("read_index: {e}"))])?;
+    ensure!(back == index, "c02.gzi.roundtrip", "gzi index read back differs: wrote {:?}, read {:?}", trunc(&format!("{:?}", pairs), 300), trunc(&format!("{:?}", back.as_ref()), 300));
+    Ok(back)
+}
+
+// ------------------------------------------------------------------------------------------------
+// reader histories against the model
+// ------------------------------------------------------------------------------------------------
+
+/// Signature of the known stale-block defect on the ≥64 KiB direct-read path.
+pub const SIG_STALE_READ: &str = "c02.stale-block.read-ge64k-at-eof";
+/// Signature (prefix) of the known stale-block defect of a seek to `(file_len, 0)`.
+pub const SIG_STALE_SEEK: &str = "c02.stale-block.seek-to-file-end";
+
+struct Run<'a> {
+    m: &'a Model,
+    rd: Rd,
+    /// model offset of the next byte
+    off: u64,
+    /// length of the last fill_buf result not yet consumed (the BufRead contract for `consume`)
+    avail: usize,
+    /// last reported position since the last seek (monotonicity)
+    last_v: Option<VirtualPosition>,
+    seeks: u32,
+    crossed_after_seek: bool,
+    direct_reads: u32,
+    reads_at_end: u32,
+    seek_end: u32,
+    seek_empty: u32,
+    seek_eof_block: u32,
+    seek_current: u32,
+    seek_u: u32,
+    seek_u_total_overflow: u32,
+    fills: u32,
+    read_exact_eof: u32,
+    direct_full: u32,
+    cross: u32,
+    known_classes: bool,
+    left_out: u32,
+    /// reused read buffer (avoids a large allocation per op)
+    scratch: Vec<u8>,
+}
+
+fn f1(sig: impl Into<String>, msg: String) -> Vec<Fail> {
+    vec![Fail::new(sig, msg)]
+}
+
+impl<'a> Run<'a> {
+    fn resolve_v(&self, v: VirtualPosition) -> Option<u64> {
+        self.m.resolve(v.compressed(), v.uncompressed())
+    }
+
+    /// The reported position must name the model's next byte; between seeks it must not decrease.
+    fn check_pos(&mut self, sig: &str, what: &str) -> Result<(), Vec<Fail>> {
+        let v = self.rd.vpos();
+        match self.resolve_v(v) {
+            Some(o) if o == self.off => {}
+            Some(o) => {
+                return Err(f1(sig, format!("{what}: virtual_position() = ({}, {}) names uncompressed offset {o}, the model is at {}", v.compressed(), v.uncompressed(), self.off)));
+            }
+            None => {
+                return Err(f1(
+                    format!("{sig}.unresolvable"),
+                    format!("{what}: virtual_position() = ({}, {}) names no byte boundary of the file (model at {})", v.compressed(), v.uncompressed(), self.off),
+                ));
+            }
+        }
+        if let Some(prev) = self.last_v {
+            if v < prev {
+                return Err(f1(
+                    "c02.vpos-decreased",
+                    format!("{what}: position went from ({}, {}) to ({}, {}) without a seek", prev.compressed(), prev.uncompressed(), v.compressed(), v.uncompressed()),
+                ));
+            }
+        }
+        self.last_v = Some(v);
+        Ok(())
+    }
+
+    fn advance(&mut self, k: u64) {
+        if k > 0 && self.seeks > 0 {
+            let a = self.m.block_of(self.off);
+            let last = self.off + k - 1;
+            let b = self.m.block_of(last);
+            if a != b {
+                self.crossed_after_seek = true;
+            }
+        }
+        self.off += k;
+    }
+
+    fn len_of(&self, l: &Len) -> usize {
+        match l {
+            Len::Abs(n) => *n as usize,
+            Len::Rest => self.m.rest_of_block(self.off) as usize,
+            Len::RestPlus(k) => self.m.rest_of_block(self.off) as usize + *k as usize,
+            Len::Big(n) => (*n as usize).max(65536),
+        }
+    }
+
+    /// True when the next `read` starts at a block boundary (or before the first block), which is
+    /// when `Reader::read` takes the direct path for buffers ≥ 64 KiB.
+    fn at_boundary(&self) -> bool {
+        self.m.table.iter().any(|b| b.ustart == self.off) || self.off == self.m.total()
+    }
+
+    fn step(&mut self, i: usize, op: &Op, index: &gzi::Index, fails: &mut Fails) -> Result<(), Vec<Fail>> {
+        let total = self.m.total();
+        let mt = self.rd.suffix();
+        match op {
+            Op::Read(l) => {
+                let mut n = self.len_of(l);
+                let last_member_nonempty = self.m.table.last().map(|b| b.len > 0).unwrap_or(false);
+                if !self.known_classes && n >= 65536 && self.off == total && last_member_nonempty && !matches!(self.rd, Rd::Multi(_)) {
+                    n = 65535;
+                    self.left_out += 1;
+                }
+                let mut buf = std::mem::take(&mut self.scratch);
+                buf.clear();
+                buf.resize(n, 0xA5u8);
+                let at_end = self.off == total;
+                if n >= 65536 && self.at_boundary() && !at_end {
+                    self.direct_reads += 1;
+                    if self.m.rest_of_block(self.off) == 65536 {
+                        self.direct_full += 1;
+                    }
+                }
+                let k = self.rd.read(&mut buf).map_err(|e| f1("c02.read-error", format!("op {i}: read({n}) at model offset {}: {e}", self.off)))?;
+                self.avail = 0;
+                if at_end {
+                    self.reads_at_end += 1;
+                    if k != 0 {
+                        let known_class = n >= 65536 && matches!(self.rd, Rd::Plain(_) | Rd::Indexed(_));
+                        let sig = if known_class { SIG_STALE_READ.to_string() } else { format!("c02.read-at-end.nonzero{mt}") };
+                        let msg = format!("op {i}: read({n}) at the end of the stream (offset {total}) returned {k} instead of 0");
+                        if known_class {
+                            // the known class: the reader's state is untouched by it, so the history goes on
+                            fails.push(sig, msg);
+                        } else {
+                            return Err(f1(sig, msg));
+                        }
+                    } else if buf.iter().any(|b| *b != 0xA5) {
+                        return Err(f1("c02.read-at-end.buffer-touched", format!("op {i}: read({n}) at the end returned 0 but wrote into the buffer")));
+                    }
+                } else {
+                    if k > n || k as u64 > total - self.off {
+                        return Err(f1("c02.read-overrun", format!("op {i}: read({n}) at offset {} of {total} returned {k}", self.off)));
+                    }
+                    if n > 0 && k == 0 {
+                        return Err(f1(format!("c02.read-zero-before-end{mt}"), format!("op {i}: read({n}) at offset {} of {total} returned 0", self.off)));
+                    }
+                    let want = &self.m.flat[self.off as usize..self.off as usize + k];
+                    if buf[..k] != *want {
+                        let d = super::c01::first_diff(&buf[..k], want);
+                        return Err(f1(format!("c02.read-data{mt}"), format!("op {i}: read({n}) at offset {} returned {k} bytes that differ from the model at +{:?}", self.off, d)));
+                    }
+                    self.advance(k as u64);
+                }
+                self.scratch = buf;
+                self.check_pos(&format!("c02.read.position{mt}"), &format!("op {i}: after read({n}) -> {k}"))
+            }
+            Op::ReadExact(l) => {
+                let n = self.len_of(l);
+                let mut buf = vec![0xA5u8; n.min(400_000)];
+                self.avail = 0;
+                let fits = n as u64 <= total - self.off;
+                if fits && n >= 65536 && self.at_boundary() {
+                    self.direct_reads += 1;
+                }
+                let r = self.rd.read_exact(&mut buf);
+                if fits {
+                    r.map_err(|e| f1(format!("c02.read_exact-error{mt}"), format!("op {i}: read_exact({n}) at offset {} of {total}: {e}", self.off)))?;
+                    let want = &self.m.flat[self.off as usize..self.off as usize + n];
+                    if buf != want {
+                        let d = super::c01::first_diff(&buf, want);
+                        return Err(f1(format!("c02.read_exact-data{mt}"), format!("op {i}: read_exact({n}) at offset {} differs from the model at +{:?}", self.off, d)));
+                    }
+                    self.advance(n as u64);
+                    self.check_pos(&format!("c02.read_exact.position{mt}"), &format!("op {i}: after read_exact({n})"))
+                } else {
+                    self.read_exact_eof += 1;
+                    // the buffer that is left when the stream ends
+                    let left = n as u64 - (total - self.off);
+                    match r {
+                        Err(e) if e.kind() == io::ErrorKind::UnexpectedEof => {}
+                        Err(e) => return Err(f1("c02.read_exact-error-kind", format!("op {i}: read_exact({n}) past the end (offset {} of {total}) failed with {e} (kind {:?}), not UnexpectedEof", self.off, e.kind()))),
+                        Ok(()) => {
+                            let sig = if left >= 65536 && matches!(self.rd, Rd::Plain(_) | Rd::Indexed(_)) { SIG_STALE_READ.to_string() } else { format!("c02.read_exact-past-end-ok{mt}") };
+                            return Err(f1(sig, format!("op {i}: read_exact({n}) at offset {} of a {total}-byte stream returned Ok", self.off)));
+                        }
+                    }
+                    // How far a failed read_exact got is unspecified (std): resynchronise on what
+                    // the reader reports, which must be a byte boundary at or after the old offset.
+                    let v = self.rd.vpos();
+                    match self.resolve_v(v) {
+                        Some(o) if o >= self.off => {
+                            self.advance(o - self.off);
+                            self.last_v = Some(v);
+                            Ok(())
+                        }
+                        Some(o) => Err(f1("c02.read_exact-eof.position-went-back", format!("op {i}: after a failed read_exact({n}) the position names offset {o} < {}", self.off))),
+                        None => Err(f1(
+                            "c02.read_exact-eof.position.unresolvable",
+                            format!("op {i}: after a failed read_exact({n}) virtual_position() = ({}, {}) names no byte boundary", v.compressed(), v.uncompressed()),
+                        )),
+                    }
+                }
+            }
+            Op::FillBuf => {
+                self.fills += 1;
+                let off = self.off;
+                let s = self.rd.fill_buf().map_err(|e| f1("c02.fill_buf-error", format!("op {i}: fill_buf at offset {off}: {e}")))?;
+                let n = s.len();
+                if off == total {
+                    if n != 0 {
+                        return Err(f1(format!("c02.fill_buf-at-end.nonempty{mt}"), format!("op {i}: fill_buf at the end of the stream returned {n} bytes")));
+                    }
+                } else {
+                    if n == 0 {
+                        return Err(f1(format!("c02.fill_buf-empty-before-end{mt}"), format!("op {i}: fill_buf at offset {off} of {total} returned an empty buffer")));
+                    }
+                    if n as u64 > total - off || s != &self.m.flat[off as usize..off as usize + n] {
+                        return Err(f1(format!("c02.fill_buf-data{mt}"), format!("op {i}: fill_buf at offset {off} returned {n} bytes that are not the model's next bytes")));
+                    }
+                }
+                self.avail = n;
+                self.check_pos(&format!("c02.fill_buf.position{mt}"), &format!("op {i}: after fill_buf -> {n}"))
+            }
+            Op::Consume(sel) => {
+                let n = pick_idx(*sel, self.avail + 1).min(self.avail);
+                self.rd.consume(n);
+                self.avail -= n;
+                self.advance(n as u64);
+                self.check_pos(&format!("c02.consume.position{mt}"), &format!("op {i}: after consume({n})"))
+            }
+            Op::Seek(t) => {
+                let ne = self.m.nonempty();
+                let (c, u): (u64, u16) = match t {
+                    Target::InBlock { blk, u } if !ne.is_empty() => {
+                        let b = &self.m.table[ne[pick_idx(*blk, ne.len())]];
+                        (b.cpos, pick_idx(*u, b.len as usize) as u16)
+                    }
+                    Target::LastByte { blk } if !ne.is_empty() => {
+                        let b = &self.m.table[ne[pick_idx(*blk, ne.len())]];
+                        (b.cpos, (b.len - 1) as u16)
+                    }
+                    Target::BlockStart { blk } if !self.m.table.is_empty() => {
+                        let j = pick_idx(*blk, self.m.table.len());
+                        let b = &self.m.table[j];
+                        if b.len == 0 {
+                            if j + 1 == self.m.table.len() {
+                                self.seek_eof_block += 1;
+                            } else {
+                                self.seek_empty += 1;
+                            }
+                        }
+                        (b.cpos, 0)
+                    }
+                    Target::Current => {
+                        self.seek_current += 1;
+                        self.rd.vpos().into()
+                    }
+                    // FileEnd, and the fallbacks for files without (non-empty) blocks
+                    _ => (self.m.file_len(), 0),
+                };
+                let is_file_end = c == self.m.file_len() && self.m.block_at(c).is_none();
+                let Some(names) = self.m.resolve(c, u) else {
+                    // only possible for Target::Current, and then the previous step has already
+                    // reported the unresolvable position
+                    return Err(f1("c02.seek.target-unresolvable", format!("op {i}: reader reports ({c}, {u}), which names no byte boundary")));
+                };
+                let v = VirtualPosition::try_from((c, u)).map_err(|e| f1("c02.harness.vpos", format!("{e}")))?;
+                if is_file_end && !self.known_classes && !matches!(self.rd, Rd::Indexed(_)) && self.m.file_len() > 0 {
+                    self.left_out += 1;
+                    return Ok(());
+                }
+                if is_file_end {
+                    self.seek_end += 1;
+                }
+                if matches!(self.rd, Rd::Indexed(_)) {
+                    // the indexed reader seeks by uncompressed offset only: to the byte the position names
+                    return self.do_seek_u(i, names, index);
+                }
+                let ret = self.rd.seek_v(v, names, self.m).map_err(|e| f1(format!("c02.seek-error{mt}"), format!("op {i}: seek(({c}, {u})): {e}")))?;
+                self.seeks += 1;
+                self.crossed_after_seek = false;
+                self.avail = 0;
+                self.last_v = None;
+                self.off = names;
+                let what = format!("op {i}: after seek(({c}, {u})) [names offset {names}]");
+                let sig = if is_file_end && !matches!(self.rd, Rd::Indexed(_)) { format!("{SIG_STALE_SEEK}{mt}") } else { format!("c02.seek.position{mt}") };
+                if ret != Some(names) {
+                    return Err(f1(format!("c02.seek.return{mt}"), format!("{what}: the returned position names offset {ret:?}")));
+                }
+                let r = self.check_pos(&sig, &what);
+                if let (Err(mut f), true) = (r.clone(), is_file_end) {
+                    // make the report say what the reader serves from there
+                    let mut buf = [0u8; 32];
+                    let served = self.rd.read(&mut buf).map(|k| format!("a following read(32) returns {k} bytes {:?} instead of 0", &buf[..k.min(32)])).unwrap_or_else(|e| format!("a following read fails: {e}"));
+                    f[0].msg = format!("{}; {served}", f[0].msg);
+                    return Err(f);
+                }
+                r
+            }
+            Op::CrossSeek { multi } => {
+                self.cross += 1;
+                let v = self.rd.vpos();
+                let (c, u) = (v.compressed(), v.uncompressed());
+                let kind = if *multi { Kind::Multi } else { Kind::Plain };
+                let mut other = Rd::new(kind, self.m.file.clone(), index);
+                let sfx = other.suffix();
+                other.seek_v(v, self.off, self.m).map_err(|e| f1(format!("c02.cross-seek-error{sfx}"), format!("op {i}: a fresh reader cannot seek to the reported position ({c}, {u}): {e}")))?;
+                // a few bytes across at least one block boundary where there is one
+                let want_len = ((self.m.rest_of_block(self.off) + 40).min(total - self.off)).min(70_000) as usize;
+                let mut got = vec![0u8; want_len];
+                let r = other.read_exact(&mut got);
+                let want = &self.m.flat[self.off as usize..self.off as usize + want_len];
+                if r.is_err() || got != want {
+                    return Err(f1(
+                        format!("c02.cross-seek-data{sfx}"),
+                        format!("op {i}: this reader reports ({c}, {u}) before model byte {}; a fresh reader sought there does not deliver the next {want_len} bytes of the stream ({:?}, first difference at {:?})", self.off, r.err().map(|e| e.to_string()), super::c01::first_diff(&got, want)),
+                    ));
+                }
+                if self.off + want_len as u64 == total {
+                    // and then the end of the stream, not more data
+                    let mut one = [0u8; 1];
+                    let k = other.read(&mut one).map_err(|e| f1(format!("c02.cross-seek-error{sfx}"), format!("op {i}: read at the end after a cross seek: {e}")))?;
+                    if k != 0 {
+                        return Err(f1(format!("c02.cross-seek-data{sfx}"), format!("op {i}: a fresh reader sought to ({c}, {u}) delivers data beyond the end of the stream")));
+                    }
+                }
+                other.finish().map_err(|e| f1("c02.mt-finish-error", format!("op {i}: MultithreadedReader::finish: {e}")))?;
+                Ok(())
+            }
+            Op::SeekU(t) => {
+                let ne = self.m.nonempty();
+                let off = match t {
+                    UTarget::Off(sel) => pick_idx(*sel, total as usize + 1) as u64,
+                    UTarget::BlockStart(sel) if !ne.is_empty() => self.m.table[ne[pick_idx(*sel, ne.len())]].ustart,
+                    UTarget::BlockLast(sel) if !ne.is_empty() => {
+                        let b = &self.m.table[ne[pick_idx(*sel, ne.len())]];
+                        b.ustart + b.len - 1
+                    }
+                    _ => total,
+                };
+                self.do_seek_u(i, off, index)
+            }
+        }
+    }
+
+    /// Seek by uncompressed offset through the gzi index (all three readers).
+    fn do_seek_u(&mut self, i: usize, off: u64, index: &gzi::Index) -> Result<(), Vec<Fail>> {
+        let total = self.m.total();
+        let mt = self.rd.suffix();
+        self.seek_u += 1;
+        // At off == total the index may only offer (last indexed block, distance), and a
+        // distance of 65536 does not fit a virtual position: an error is acceptable there.
+        let last_indexed_ustart = index.as_ref().iter().map(|p| p.1).filter(|u| *u <= off).max().unwrap_or(0);
+        let overflow = off - last_indexed_ustart > u16::MAX as u64;
+        let mut landed = off;
+        match self.rd.seek_u(off, index) {
+            Ok(ret) => {
+                ensure_eq!(ret, off, format!("c02.seek_u.return{mt}"), "value returned by the seek by uncompressed offset");
+            }
+            Err(e) => {
+                if overflow && off == total {
+                    self.seek_u_total_overflow += 1;
+                    // the reader may have moved or not; resynchronise with a defined seek
+                    let ret = self.rd.seek_u(0, index).map_err(|e| f1(format!("c02.seek_u-error{mt}"), format!("op {i}: seek to uncompressed offset 0: {e}")))?;
+                    ensure_eq!(ret, 0, format!("c02.seek_u.return{mt}"), "value returned by the seek by uncompressed offset");
+                    landed = 0;
+                } else {
+                    return Err(f1(format!("c02.seek_u-error{mt}"), format!("op {i}: seek to uncompressed offset {off} of {total}: {e}")));
+                }
+            }
+        }
+        self.seeks += 1;
+        self.crossed_after_seek = false;
+        self.avail = 0;
+        self.last_v = None;
+        self.off = landed;
+        self.check_pos(&format!("c02.seek_u.position{mt}"), &format!("op {i}: after seek to uncompressed offset {landed} of {total}"))
+    }
+}
+
+fn check_reader(c: &Case) -> Verdict {
+    let m = c.layout.build();
+    // harness self-check: the independent walker accepts the assembled file and agrees with the table
+    let walked = Model::from_file(&m.file).expect("assembled layout is well-formed BGZF");
+    assert!(walked.flat == m.flat && walked.table.len() == m.table.len(), "walker and builder disagree");
+
+    let index = gzi_roundtrip(&m.gzi(c.gzi_drop_terminator))?;
+    let mut run = Run {
+        m: &m,
+        rd: Rd::new(c.kind, m.file.clone(), &index),
+        off: 0,
+        avail: 0,
+        last_v: None,
+        seeks: 0,
+        crossed_after_seek: false,
+        direct_reads: 0,
+        reads_at_end: 0,
+        seek_end: 0,
+        seek_empty: 0,
+        seek_eof_block: 0,
+        seek_current: 0,
+        seek_u: 0,
+        seek_u_total_overflow: 0,
+        fills: 0,
+        read_exact_eof: 0,
+        direct_full: 0,
+        cross: 0,
+        known_classes: c.known_classes,
+        left_out: 0,
+        scratch: Vec::with_capacity(200_000),
+    };
+    let mut fails = Fails::new();
+    let mut nontrivial = false;
+    run.check_pos("c02.initial.position", "fresh reader")?;
+    // the generated history, then one more read so that the last seek is followed by data
+    let tail = [Op::Read(Len::Abs(97))];
+    for (i, op) in c.ops.iter().chain(tail.iter()).enumerate() {
+        if let Err(mut f) = run.step(i, op, &index, &mut fails) {
+            fails.0.append(&mut f);
+            return Err(fails.0);
+        }
+        nontrivial |= run.seeks > 0 && run.crossed_after_seek;
+    }
+    let Run { rd, seeks, direct_reads, reads_at_end, seek_end, seek_empty, seek_eof_block, seek_current, seek_u, seek_u_total_overflow, fills, read_exact_eof, direct_full, cross, left_out, .. } = run;
+    if let Err(e) = rd.finish() {
+        fails.push("c02.mt-finish-error", format!("MultithreadedReader::finish on an intact file: {e}"));
+    }
+    let big = m.table.iter().any(|b| b.len == 65536);
+    fails.finish(
+        Pass::new(nontrivial, key_of(c))
+            .label(match c.kind {
+                Kind::Plain => "reader",
+                Kind::Indexed => "indexed-reader",
+                Kind::Multi => "multithreaded-reader",
+            })
+            .label_if(m.has_mid_empty(), "empty-block-mid-file")
+            .label_if(big, "block-65536")
+            .label_if(!c.layout.eof, "missing-eof")
+            .label_if(m.table.is_empty(), "zero-byte-file")
+            .label_if(m.nonempty().len() >= 3, "data-blocks>=3")
+            .label_if(direct_reads > 0, "direct-read-path")
+            .label_if(direct_full > 0, "direct-read-of-65536-block")
+            .label_if(reads_at_end > 1, "read-at-end")
+            .label_if(seek_end > 0, "seek-to-file-end")
+            .label_if(seek_empty > 0, "seek-to-empty-block")
+            .label_if(seek_eof_block > 0, "seek-to-last-empty-block")
+            .label_if(seek_current > 0, "seek-to-own-position")
+            .label_if(seek_u > 0, "seek-by-uncompressed")
+            .label_if(seek_u_total_overflow > 0, "seek-u-total-unrepresentable")
+            .label_if(seeks >= 3, "seeks>=3")
+            .label_if(fills > 0, "fill_buf")
+            .label_if(cross > 0, "cross-reader-seek")
+            .label_if(c.known_classes, "known-defect-classes-kept-in")
+            .label_if(left_out > 0, "known-defect-call-left-out")
+            .label_if(read_exact_eof > 0, "read_exact-past-end")
+            .label_if(c.gzi_drop_terminator, "gzi-without-terminator"),
+    )
+}
+
+// ------------------------------------------------------------------------------------------------
+// writer histories
+// ------------------------------------------------------------------------------------------------
+
+#[derive(Clone, Debug, Serialize, Deserialize)]
+pub enum WOp {
+    /// one raw `write()` offered `n` bytes
+    Write(u32),
+    WriteAll(u32),
+    Flush,
+}
+
+#[derive(Clone, Debug, Serialize, Deserialize)]
+pub struct WCase {
+    pub payload: Payload,
+    pub level: Option<u8>,
+    pub ops: Vec<WOp>,
+    /// which reader seeks the samples
+    pub kind: Kind,
+    /// which samples are sought in a fresh reader (all of them are resolved against the walker)
+    pub pick: Vec<u16>,
+}
+
+fn wlen() -> BoxedStrategy<u32> {
+    prop_oneof![
+        5 => 0u32..=100,
+        2 => 100u32..=9000,
+        2 => 60_000u32..=70_000,
+        1 => proptest::sample::select(vec![65494u32, 65495, 65496, 65536, 130990, 130991]),
+        1 => 0u32..=200_000,
+    ]
+    .boxed()
+}
+
+fn wstrategy(tier: Tier) -> BoxedStrategy<WCase> {
+    let max = tier.pick(200_000u32, 300_000);
+    (
+        payload(max),
+        prop_oneof![1 => Just(None), 4 => (0u8..=9).prop_map(Some)],
+        proptest::collection::vec(prop_oneof![4 => wlen().prop_map(WOp::Write), 4 => wlen().prop_map(WOp::WriteAll), 3 => Just(WOp::Flush)], 0..=tier.pick(16usize, 40)),
+        prop_oneof![3 => Just(Kind::Plain), 1 => Just(Kind::Indexed), 2 => Just(Kind::Multi)],
+        proptest::collection::vec(any::<u16>(), 0..=tier.pick(5usize, 10)),
+    )
+        .prop_map(|(payload, level, ops, kind, pick)| WCase { payload, level, ops, kind, pick })
+        .boxed()
+}
+
+fn check_writer(c: &WCase) -> Verdict {
+    let data = c.payload.expand();
+    let mut builder = bgzf::io::writer::Builder::default();
+    if let Some(l) = c.level {
+        let level = bgzf::io::writer::CompressionLevel::new(l).ok_or_else(|| f1("c02.level-rejected", format!("level {l} rejected")))?;
+        builder = builder.set_compression_level(level);
+    }
+    let mut w = builder.build_from_writer(Vec::new());
+    let werr = |e: io::Error| f1("c02.writer-error", format!("writer returned {e}"));
+    // (virtual position reported immediately before a write, payload offset of the first byte of that write)
+    let mut samples: Vec<(VirtualPosition, u64)> = Vec::new();
+    let mut off = 0usize;
+    let mut flushes = 0;
+    let mut last: Option<VirtualPosition> = None;
+    let mut tell = |w: &bgzf::io::Writer<Vec<u8>>, off: usize, samples: &mut Vec<(VirtualPosition, u64)>| -> Result<(), Vec<Fail>> {
+        let v = w.virtual_position();
+        if let Some(p) = last {
+            ensure!(v >= p, "c02.writer.vpos-decreased", "Writer::virtual_position() went from {:?} to {:?}", <(u64, u16)>::from(p), <(u64, u16)>::from(v));
+        }
+        last = Some(v);
+        samples.push((v, off as u64));
+        Ok(())
+    };
+    for op in &c.ops {
+        match op {
+            WOp::Write(n) => {
+                let end = (off + *n as usize).min(data.len());
+                if end > off {
+                    tell(&w, off, &mut samples)?;
+                }
+                let k = w.write(&data[off..end]).map_err(werr)?;
+                ensure!(k <= end - off && (end == off || k > 0), "c02.writer.write-count", "write({}) returned {k}", end - off);
+                off += k;
+            }
+            WOp::WriteAll(n) => {
+                // write_all, spelled out so that the position is sampled before every inner write
+                let end = (off + *n as usize).min(data.len());
+                while off < end {
+                    tell(&w, off, &mut samples)?;
+                    let k = w.write(&data[off..end]).map_err(werr)?;
+                    ensure!(k > 0 && k <= end - off, "c02.writer.write-count", "write({}) returned {k}", end - off);
+                    off += k;
+                }
+            }
+            WOp::Flush => {
+                w.flush().map_err(werr)?;
+                flushes += 1;
+            }
+        }
+    }
+    while off < data.len() {
+        tell(&w, off, &mut samples)?;
+        let k = w.write(&data[off..]).map_err(werr)?;
+        ensure!(k > 0 && k <= data.len() - off, "c02.writer.write-count", "write({}) returned {k}", data.len() - off);
+        off += k;
+    }
+    let file = w.finish().map_err(werr)?;
+    let m = Model::from_file(&file).map_err(|e| f1("c02.writer.malformed", e))?;
+    ensure!(m.flat == data, "c02.writer.roundtrip", "independent inflate of the written file differs from the payload");
+
+    // every sample names the byte that was written next (independent walker, no noodles reader)
+    for (n, (v, o)) in samples.iter().enumerate() {
+        let (cp, up) = (v.compressed(), v.uncompressed());
+        match m.resolve(cp, up) {
+            Some(r) if r == *o => {}
+            other => {
+                return fail1(
+                    "c02.writer.tell-names-wrong-byte",
+                    format!("sample {n}: Writer::virtual_position() = ({cp}, {up}) before payload byte {o}; in the finished file it names {other:?}"),
+                );
+            }
+        }
+        // "identifies that byte": it must lie inside the block, not at its end
+        if let Some(b) = m.block_at(cp) {
+            ensure!((up as u64) < m.table[b].len, "c02.writer.tell-at-block-end", "sample {n}: ({cp}, {up}) lies at the end of a {}-byte block although a byte was written next", m.table[b].len);
+        }
+    }
+
+    // seek a fresh reader to picked samples: the stream from there is the payload suffix
+    let index = gzi::Index::from(m.gzi(false));
+    let mut sought = 0;
+    let mut crossed = false;
+    for sel in &c.pick {
+        if samples.is_empty() {
+            break;
+        }
+        let (v, o) = samples[pick_idx(*sel, samples.len())];
+        let mut rd = Rd::new(c.kind, file.clone(), &index);
+        rd.seek_v(v, o, &m).map_err(|e| f1("c02.writer.seek-error", format!("seek({:?}): {e}", <(u64, u16)>::from(v))))?;
+        let mut rest = Vec::new();
+        // the file ends with the EOF marker, so reading to the end terminates on every reader
+        let r = match &mut rd {
+            Rd::Plain(r) => r.read_to_end(&mut rest),
+            Rd::Indexed(r) => r.read_to_end(&mut rest),
+            Rd::Multi(r) => r.read_to_end(&mut rest),
+        };
+        r.map_err(|e| f1("c02.writer.read-error", format!("read_to_end after seek({:?}): {e}", <(u64, u16)>::from(v))))?;
+        let want = &data[o as usize..];
+        if rest != want {
+            return fail1(
+                "c02.writer.seek-to-sample",
+                format!("a reader sought to the sample ({}, {}) taken before payload byte {o} delivered {} bytes, the payload suffix has {} (first difference at {:?})", v.compressed(), v.uncompressed(), rest.len(), want.len(), super::c01::first_diff(&rest, want)),
+            );
+        }
+        let end = rd.vpos();
+        ensure!(m.resolve(end.compressed(), end.uncompressed()) == Some(m.total()), "c02.writer.end-position", "after reading to the end the reader reports {:?}", <(u64, u16)>::from(end));
+        rd.finish().map_err(|e| f1("c02.mt-finish-error", format!("MultithreadedReader::finish: {e}")))?;
+        sought += 1;
+        crossed |= m.block_of(o) != m.block_of(m.total().saturating_sub(1));
+    }
+    let data_blocks = m.nonempty().len();
+    let mid_block = samples.iter().filter(|(v, _)| v.uncompressed() != 0).count();
+    Ok(Pass::new(sought > 0 && crossed && samples.len() >= 2, key_of(c))
+        .evals(1 + sought)
+        .label_if(data_blocks >= 2, "blocks>=2")
+        .label_if(flushes > 0, "flush")
+        .label_if(mid_block > 0, "sample-inside-block")
+        .label_if(samples.iter().any(|(v, _)| v.uncompressed() == 0 && v.compressed() > 0), "sample-at-block-start")
+        .label_if(samples.len() >= 8, "samples>=8")
+        .label_if(c.level == Some(0), "level0")
+        .label(match c.kind {
+            Kind::Plain => "reader",
+            Kind::Indexed => "indexed-reader",
+            Kind::Multi => "multithreaded-reader",
+        }))
+}
+
+// ------------------------------------------------------------------------------------------------
+// gzi round trip on arbitrary indexes
+// ------------------------------------------------------------------------------------------------
+
+#[derive(Clone, Debug, Serialize, Deserialize)]
+pub struct GCase {
+    pub pairs: Vec<(u64, u64)>,
+    /// (kind, value): kind 0/1/2 = the uncompressed offset of record `value` exactly / minus one /
+    /// plus one; otherwise `value` is an arbitrary offset
+    pub queries: Vec<(u8, u64)>,
+}
+
+fn gstrategy(_tier: Tier) -> BoxedStrategy<GCase> {
+    // sorted, bgzip-like indexes (block sizes ≤ 65536 both ways) and unconstrained ones
+    let sorted = proptest::collection::vec((26u64..=65536, 0u64..=65536), 0..40).prop_map(|steps| {
+        let (mut c, mut u) = (0u64, 0u64);
+        steps
+            .into_iter()
+            .map(|(dc, du)| {
+                c += dc;
+                u += du;
+                (c, u)
+            })
+            .collect::<Vec<_>>()
+    });
+    let wild = proptest::collection::vec((any::<u64>(), any::<u64>()), 0..12);
+    (prop_oneof![4 => sorted, 1 => wild], proptest::collection::vec((0u8..5, any::<u64>()), 0..12)).prop_map(|(pairs, queries)| GCase { pairs, queries }).boxed()
+}
+
+fn check_gzi(c: &GCase) -> Verdict {
+    let index = gzi_roundtrip(&c.pairs)?;
+    // query against a linear scan, on sorted indexes only (query presupposes sorted input) and only
+    // where the in-block distance is representable
+    let sorted = c.pairs.windows(2).all(|w| w[0].0 <= w[1].0 && w[0].1 <= w[1].1);
+    let mut queried = 0;
+    if sorted {
+        let max_u = c.pairs.last().map(|p| p.1).unwrap_or(0);
+        for (kind, q) in &c.queries {
+            let at = |d: i64| -> u64 {
+                if c.pairs.is_empty() {
+                    return 0;
+                }
+                let u = c.pairs[(*q % c.pairs.len() as u64) as usize].1;
+                if d < 0 { u.saturating_sub(1) } else { u.saturating_add(d as u64) }
+            };
+            let off = match kind {
+                0 => at(0),
+                1 => at(-1),
+                2 => at(1),
+                _ => *q % max_u.saturating_add(65536).max(1),
+            };
+            let (mut bc, mut bu) = (0u64, 0u64);
+            for (pc, pu) in &c.pairs {
+                if *pu <= off {
+                    bc = *pc;
+                    bu = *pu;
+                }
+            }
+            let d = off - bu;
+            match index.query(off) {
+                Ok(v) => {
+                    ensure!(d <= u16::MAX as u64, "c02.gzi.query-wraps", "query({off}) = {:?} although the distance {d} to the block start does not fit 16 bits", <(u64, u16)>::from(v));
+                    ensure_eq!(<(u64, u16)>::from(v), (bc, d as u16), "c02.gzi.query", format!("query({off}) vs linear scan (last record with uncompressed offset <= {off})"));
+                    queried += 1;
+                }
+                Err(e) => {
+                    ensure!(d > u16::MAX as u64 || bc >= (1 << 48), "c02.gzi.query-error", "query({off}) failed ({e}) although ({bc}, {d}) is representable");
+                }
+            }
+        }
+    }
+    Ok(Pass::new(!c.pairs.is_empty(), key_of(c)).evals(1 + queried).label_if(sorted, "sorted").label_if(c.pairs.is_empty(), "empty-index").label_if(queried > 0, "queried"))
+}
 
 pub fn property() -> Property {
-    Property { id: "C02", level: "exploration", rule: "", assumptions: vec![], subs: vec![], max_parallel: 16 }
+    Property {
+        id: "C02",
+        level: "exploration",
+        rule: "hand-assembled BGZF layouts (empty blocks mid-file, 65536-byte blocks, EOF marker present/absent) × histories of read/read_exact/fill_buf/consume/seek/seek-by-uncompressed-offset on Reader, IndexedReader and MultithreadedReader; Writer histories with virtual_position() sampled before each write; arbitrary gzi indexes",
+        assumptions: vec![
+            "the harness's BGZF builder/walker (miniz_oxide deflate/inflate, crc32fast) and its flat-array + block-table model are correct".into(),
+            "a virtual position is accepted when it names the right byte boundary: (c, u) with c the start of a member and u <= its length, or (file_len, 0); no particular encoding of a block boundary is demanded".into(),
+            "seek targets are only of the forms a reader or writer reports; how far a failed read_exact got is not asserted (unspecified by std)".into(),
+            "gzi built by the harness the way bgzip -i defines it (with and without the terminating record), not by noodles".into(),
+        ],
+        subs: vec![
+            sub(
+                "reader_history",
+                "non-trivial = at least one seek with a block boundary crossed by reading after it; distinct by hash of the whole case",
+                strategy,
+                check_reader,
+                40_000,
+                800_000,
+            )
+            .boxed(),
+            sub(
+                "writer_tell",
+                "non-trivial = ≥2 samples, ≥1 sample sought in a fresh reader with the suffix spanning ≥2 blocks; distinct by hash of the whole case",
+                wstrategy,
+                check_writer,
+                4_000,
+                60_000,
+            )
+            .boxed(),
+            sub("gzi_roundtrip", "non-trivial = non-empty index; distinct by hash of the whole case", gstrategy, check_gzi, 4_000, 80_000).boxed(),
+        ],
+        max_parallel: 16,
+    }
 }
